@@ -627,9 +627,15 @@ Definition count_msg (outs : list output) : nat := List.length (filter carries o
 Lemma count_msg_app a b : count_msg (a ++ b) = count_msg a + count_msg b.
 Proof. unfold count_msg. rewrite filter_app, app_length. reflexivity. Qed.
 
+(* The length bound used to read [List.length outs' <= List.length outs + n] (one output per unit of fuel).  With
+   the corrected model of TCPClientTransport.Send (the round that dials also writes) that is false for n = 1
+   (a fresh client emits the dial and the write in ONE round); the bound is now "at most two outputs, none
+   without fuel", which coincides with the old one at n = 0 and n = 2 (the only fuel [failover_send] uses) and
+   is stronger for n > 2. *)
 Lemma tcp_client_send_count : forall n li local rs id b p cs w outs p' cs' w' outs' ok,
   tcp_client_send n li local rs id b p cs w outs = (p', cs', w', outs', ok) ->
-  count_msg outs' <= count_msg outs + 1 /\ List.length outs' <= List.length outs + n.
+  count_msg outs' <= count_msg outs + 1 /\
+  List.length outs' <= List.length outs + match n with O => 0 | S _ => 2 end.
 Proof.
   induction n as [|n IH]; intros li local rs id b p cs w outs p' cs' w' outs' ok H; cbn [tcp_client_send] in H.
   - injection H as <- <- <- <- <-. lia.
@@ -637,10 +643,16 @@ Proof.
     destruct (tc_cached cl) as [c|].
     + destruct (conn_open cs c).
       * injection H as <- <- <- <- <-. rewrite count_msg_app, app_length. cbn. lia.
-      * apply IH in H. lia.
+      * apply IH in H. destruct n; lia.
     + destruct (existsb _ (w_tcp_listeners w)); [|injection H as <- <- <- <- <-; lia].
-      apply IH in H. rewrite count_msg_app, app_length in H. cbn in H. lia.
+      injection H as <- <- <- <- <-. rewrite count_msg_app, app_length. cbn. lia.
 Qed.
+(* non-vacuity of the n = 1 remark: the old bound fails for a fresh client with one unit of fuel *)
+Example tcp_client_send_count_fuel1 : forall p0 : pstate,
+  let p := with_clients p0 [{| tc_id := 0; tc_host := []; tc_port := 0%Z; tc_cached := None |}] in
+  let w := {| w_tcp_listeners := [([], 0%Z)]; w_next_conn := 0 |} in
+  List.length (snd (fst (tcp_client_send 1 0 [] false 0 [] p [] w []))) = 2.
+Proof. intros p0. reflexivity. Qed.
 
 Lemma failover_send_count li local rs f b p cs w p' cs' w' outs ok f' :
   failover_send li local rs f b p cs w = (p', cs', w', outs, ok, f') ->
